@@ -37,6 +37,8 @@ STRUCTS = {
     'duplicated': [('A', 'B'), ('A', 'B')],
     'empty': [],
     'triples': [('A', 'B', 'C'), ('B', 'C', 'D')],
+    'triples-single': [('A', 'B', 'C'), ('B', 'C', 'D'), ('C',)],
+    'triples-pair': [('A', 'B', 'C'), ('B', 'C', 'D'), ('C', 'A')],
 }
 DISJOINT = ['single', 'disjoint-pair', 'disjoint-singles-pair']
 ITERS = [1, 2, 3, 5, 20, 60, 200, 600]
@@ -58,23 +60,27 @@ def jobs(tier, seed):
                             'seed': seed})
             if sname in DISJOINT or tier == 'thorough':
                 out.append({'s': sname, 'oracle': orc, 'noise': 'low', 'iters': [600], 'totals': ['given'], 'seed': seed})
+            # large total relative to the noise: many step halvings/restarts are needed before the first accepted step
+            if sname in ('single', 'chain', 'disjoint-pair', 'nested', 'triples-single') or tier == 'thorough':
+                out.append({'s': sname, 'oracle': orc, 'noise': 'low', 'iters': [20, 26, 60] if tier == 'quick' else [20, 23, 26, 60, 200],
+                            'totals': ['given'], 'seed': seed, 'T': 1e6})
     return out
 
 
-def run_one(sname, orc, noise, iters, totmode, seed):
+def run_one(sname, orc, noise, iters, totmode, seed, T0=40.0):
     from mbi import Domain, LocalInference
     struct = STRUCTS[sname]
     si = list(STRUCTS).index(sname)
-    prob = M.Problem(ATTRS, SIZES, struct, si, 'pos', seed, total=40.0, noise_mult=0.5 if noise == 'low' else 3.0,
+    prob = M.Problem(ATTRS, SIZES, struct, si, 'pos', seed, total=T0, noise_mult=0.5 if noise == 'low' else 3.0,
                      kinds=['dense', 'sparse', 'prefix', 'linop'])
     eng = LocalInference(Domain(ATTRS, SIZES), iters=iters, marginal_oracle=orc)
     ms = prob.fresh_measurements()
     with M.quiet():
-        model = eng.estimate(ms, total=40.0 if totmode == 'given' else None)
+        model = eng.estimate(ms, total=T0 if totmode == 'given' else None)
     T = float(model.total)
     fails = []
-    if totmode == 'given' and T != 40.0:
-        fails.append(('total', 'model.total %r, supplied 40' % T))
+    if totmode == 'given' and T != T0:
+        fails.append(('total', 'model.total %r, supplied %r' % (T, T0)))
     f = 0.0
     fu = 0.0
     tables = {}
@@ -132,11 +138,11 @@ def run_job(job):
             # iteration counts <= 5 are where the open finding F11 (final step never validated) manifests; their numeric alphabet is
             # fixed (seeds 0/1) so that the set of witnesses does not depend on VERIF_SEED
             seed = job['seed'] if iters > 5 else job['seed'] % 2
-            case = {'s': job['s'], 'oracle': job['oracle'], 'noise': job['noise'], 'iters': iters, 'total': totmode, 'seed': seed}
+            case = {'s': job['s'], 'oracle': job['oracle'], 'noise': job['noise'], 'iters': iters, 'total': totmode, 'seed': seed, 'T': job.get('T', 40.0)}
             struct = STRUCTS[job['s']]
             acc.case(case, nontrivial=len(struct) >= 2)
             try:
-                struct, fails, info = run_one(job['s'], job['oracle'], job['noise'], iters, totmode, seed)
+                struct, fails, info = run_one(job['s'], job['oracle'], job['noise'], iters, totmode, seed, job.get('T', 40.0))
             except Exception as ex:  # (i) estimate must complete without error
                 import traceback
                 from ..core import _classify_exception
@@ -157,7 +163,7 @@ def run_job(job):
 
 def replay(case):
     try:
-        struct, fails, info = run_one(case['s'], case['oracle'], case['noise'], case['iters'], case['total'], case['seed'])
+        struct, fails, info = run_one(case['s'], case['oracle'], case['noise'], case['iters'], case['total'], case['seed'], case.get('T', 40.0))
     except Exception as ex:
         fails, info = [('raises', 'estimate raised %s: %s' % (type(ex).__name__, ex))], {}
     print(info)
